@@ -208,23 +208,24 @@ func pickLive(t *rapid.T, m *Model, recent []uint32, label string) (uint32, bool
 
 // TxnCfg controls transaction generation.
 type TxnCfg struct {
-	Prop              string // property the exclusion counters are reported under
-	MaxSteps          int
-	Rollback          bool // transactions may end in an error
-	FailInsert        bool // insert callbacks may fail (swallowed by the body)
-	Deletes           bool
-	Inserts           bool
-	Merges            bool
-	OwnUpdates        bool // stores on rows inserted earlier in the same transaction
-	KeyOps            bool // on keyed schemas: key operations (otherwise only InsertKey for new rows)
-	Direct            bool // single-step transactions may use the collection-level methods
-	Peeks             bool // row callbacks may end with a nested read-only QueryAt of another live row (moves the cursor)
-	OnlyCols          []int
-	NoStoreOnDel      bool                                             // never store to a row that the same transaction deletes (known finding F11)
-	NoOpAfterLenMerge bool                                             // known finding f15: no later store to a row+column after a length-changing merge in the same transaction
-	NoDoubleDelete    bool                                             // never delete one row twice in one transaction
-	StringAlphabet    []string                                         // if set, string values are drawn from this alphabet
-	SafeValue         func(t *rapid.T, cs ColSpec, label string) Value // if set, replaces the edge-biased value generator
+	Prop                   string // property the exclusion counters are reported under
+	MaxSteps               int
+	Rollback               bool // transactions may end in an error
+	FailInsert             bool // insert callbacks may fail (swallowed by the body)
+	Deletes                bool
+	Inserts                bool
+	Merges                 bool
+	OwnUpdates             bool // stores on rows inserted earlier in the same transaction
+	KeyOps                 bool // on keyed schemas: key operations (otherwise only InsertKey for new rows)
+	Direct                 bool // single-step transactions may use the collection-level methods
+	PropagateInsertFailure bool // known finding f22 (C15/C19): the body propagates the error of its first failing insert
+	Peeks                  bool // row callbacks may end with a nested read-only QueryAt of another live row (moves the cursor)
+	OnlyCols               []int
+	NoStoreOnDel           bool                                             // never store to a row that the same transaction deletes (known finding F11)
+	NoOpAfterLenMerge      bool                                             // known finding f15: no later store to a row+column after a length-changing merge in the same transaction
+	NoDoubleDelete         bool                                             // never delete one row twice in one transaction
+	StringAlphabet         []string                                         // if set, string values are drawn from this alphabet
+	SafeValue              func(t *rapid.T, cs ColSpec, label string) Value // if set, replaces the edge-biased value generator
 }
 
 func storableCols(m *Model, cfg TxnCfg) []int {
@@ -492,7 +493,7 @@ func genTxn(t *rapid.T, m *Model, recent []uint32, cfg TxnCfg) TxnSpec {
 			spec.Panic = true
 		}
 	}
-	if cfg.FailInsert && KFActive("f22-swallowed-insert-failure") {
+	if cfg.FailInsert && cfg.PropagateInsertFailure && KFActive("f22-swallowed-insert-failure") {
 		// known finding: a failing insert whose error is swallowed by a committing body.
 		// Excluded by construction: the body propagates the error of the first failing insert.
 		for i, st := range spec.Steps {
